@@ -26,7 +26,8 @@ fn zero_seg(address: usize) -> Result<u8, RuntimeError> {
     if address == INDICATOR_KEYS_ADDRESS {
         unsafe { get_indicator_keys() }
     } else {
-        unimplemented!()
+        // only the keyboard indicator byte of segment 0 is emulated
+        Err(RuntimeError::IllegalFunctionCall)
     }
 }
 
